@@ -84,6 +84,11 @@ func (w *responseWriter) Write(b []byte) (size int, err error) {
 	if w.method != http.MethodHead {
 		size, err = w.ResponseWriter.Write(b)
 		w.size += size
+	} else {
+		// Eat the body like net/http does. Reporting a short write without an error
+		// breaks the contract of io.Writer and makes buffered writers fail with
+		// io.ErrShortWrite, e.g. the XML encoder.
+		size = len(b)
 	}
 	return size, err
 }
